@@ -207,6 +207,19 @@ theorem terminating_text_roundtrip (b : Nat) (p : Pfx) (hr : Readable b p) (sep 
   · exact ⟨_, by simpa [prefixChars] using scan_plain_decimal_terminating sep th hs _ _ hlt hsne, hval⟩
   · exact ⟨_, scan_custom_prefix_terminating b h2 h36 sep th hs _ _ hlt hsne, hval⟩
 
+/-- a decimal (or lower-base) integer literal with an exponent — `IeE`, `Ie+E`, `Ie-E` — is scanned, character by character,
+into its digit groups, and denotes `I * b^E` resp. `I / b^E` -/
+theorem exponent_literal_text (b : Nat) (hb2 : 2 ≤ b) (hb : b ≤ 10) (sep th : Char) (hs : SepOK sep th) (n : Nat) (sign : Option Bool)
+    (d : Nat) (ds : List Nat) (hds : ∀ x ∈ d :: ds, x < b) :
+    ∃ parts, parseBasic b sep th ((natDigits b n).map digitChar ++
+        'e' :: ((match sign with | none => [] | some true => ['-'] | some false => ['+']) ++ (d :: ds).map digitChar)) = .ok (.num parts []) ∧
+      litValue parts = if sign == some true then (n : Rat) / (b : Rat) ^ valDigits b (d :: ds) else (n : Rat) * (b : Rat) ^ valDigits b (d :: ds) := by
+  refine ⟨_, parseBasic_exponent b hb2 hb sep th hs n sign d ds hds, ?_⟩
+  have hv := valDigits_natDigits b n hb2
+  cases hsg : (sign == some true) with
+  | true => simp [litValue, hv]
+  | false => simp [litValue, hv]
+
 -- the scanner and the renderer on concrete literals / values (kernel-evaluated; these are tests, not the theorems)
 example : (fmtRat ⟨10, .plain, .exactFloat, '.'⟩ false 1 6).1 = "0.1(6)".toList := by decide +kernel
 example : (fmtRat ⟨12, .custom, .exactFloat, ','⟩ false 1 7).1 = "12#0,(186a35)".toList := by decide +kernel
